@@ -26,6 +26,8 @@ ASSUMPTIONS = [
     "compared at request granularity (one request at a time); thread-level interleavings inside a request are C18's subject",
     "timestamps, thread counts and instance ids are not part of the compared bodies",
     "the clock is substituted as in C17 so that time-outs are deterministic",
+    "responses of an instance are compared up to its first request made after it had been idle for its full timeout (revival of an expired instance is left open by the statement)",
+    "bodies are compared as parsed JSON (key order inside a step result depends on thread completion order)",
 ]
 
 SM, SC = "smC16", "base"
@@ -119,7 +121,12 @@ def run_history(events, timeouts, style, adapter=False):
                 resp = client.post("/%s/stop-instance" % iid)
             else:
                 raise ValueError(kind)
-            out[idx].append([resp.status_code, resp.get_data(as_text=True)])
+            txt = resp.get_data(as_text=True)
+            try:
+                body = json.loads(txt)  # key order inside a step result depends on which equation thread finished first
+            except Exception:
+                body = txt
+            out[idx].append([resp.status_code, body])
     finally:
         srv.datetime, esa.datetime = old_srv, old_esa
         for b in made:
@@ -141,10 +148,27 @@ def check_case(case):
         vs.append(Violation("crash:interleaved:" + type(e).__name__, "interleaved run raised %r" % (e,)))
         return info, vs
     insts = sorted(inter)
+    # an instance that is accessed after it has been idle for its full timeout may or may not be revived (the statement
+    # leaves this open): from that request on its responses are not compared
+    limit = {}
+    now = 0
+    last = {}
+    count = {}
+    for e in events:
+        if e[0] == "advance":
+            now += e[1]
+            continue
+        idx = e[1]
+        count[idx] = count.get(idx, 0) + 1
+        if idx in last and idx not in limit and now - last[idx] >= c17.timeout_micros(timeouts[idx]):
+            limit[idx] = count[idx] - 1
+        last[idx] = now
     for idx in insts:
         solo_events = [e for e in events if e[0] == "advance" or e[1] == idx]
         solo = run_history(solo_events, timeouts, case["style"])
         a, b = inter[idx], solo.get(idx, [])
+        if idx in limit:
+            a, b = a[:limit[idx]], b[:limit[idx]]
         if a != b:
             pos = next((i for i, (x, y) in enumerate(zip(a, b)) if x != y), min(len(a), len(b)))
             reqs = [e[2] for e in events if e[0] == "req" and e[1] == idx]
@@ -221,7 +245,7 @@ def _body(ctx):
 
 
 def plan(tier):
-    n = 20 if tier == "quick" else 400
+    n = 40 if tier == "quick" else 500
     return [{"n": n} for _ in range(16)]
 
 
